@@ -131,8 +131,9 @@ def _and_const(ta: Any, m: int) -> Any:
     if nm == 0:
         return mk_int(ta)
     r = _and_const(ta, nm)
-    out = mk_int(ta - int_term(r))
     runs = _mask_runs(nm)
+    # clearing the low w bits leaves w known zero low bits (so that a following "| small" is an addition)
+    out = mk_int(ta - int_term(r), runs[0][1] if runs[0][0] == 0 else 0)
     if isinstance(out, SInt) and len(runs) == 1:
         out.bits = ("clear", runs[0][0], runs[0][1])
     return out
